@@ -108,11 +108,24 @@ func buildEnv(cfg envCfg, probeDir, scratch string) (*env, error) {
 	if cfg.Cred {
 		b.CredGenerator = creds
 	}
-	buildMu.Lock()
-	before := childPids()
-	e, err := b.Build()
-	after := childPids()
-	buildMu.Unlock()
+	// Build pings the new init with a 3 s deadline; on a heavily loaded machine the start of the
+	// init process can take longer, so a failed build is retried (a fresh container every time)
+	var (
+		e             container.Environment
+		err           error
+		before, after map[int]bool
+	)
+	for attempt := 0; attempt < 6; attempt++ {
+		buildMu.Lock()
+		before = childPids()
+		e, err = b.Build()
+		after = childPids()
+		buildMu.Unlock()
+		if err == nil {
+			break
+		}
+		time.Sleep(time.Duration(attempt+1) * 500 * time.Millisecond)
+	}
 	if err != nil {
 		return nil, fmt.Errorf("build: %w (%s)", err, stderr.String())
 	}
